@@ -99,6 +99,9 @@ def run(ctx):
         ctx.sample({k: ln[k] for k in ("fns", "nfff", "m", "k", "i", "cls", "nf_rows", "beta0", "raw")})
     bad = ctx.tlc_validate("Trace_C06", "Trace.cfg", [{k: v for k, v in ln.items() if k != "raw"} for ln in lines])
     by = {ln["oid"]: ln for ln in lines}
+    good = [{k: v for k, v in ln.items() if k != "raw"} for ln in lines if ln["oid"] not in bad]
+    ctx.selftest("Trace_C06", "Trace.cfg", good, [("nf_rows", lambda l: dict(l, nf_rows=l["nf_rows"] + 1)),
+                                                   ("beta0", lambda l: dict(l, beta0=[l["beta0"][0] + 1, l["beta0"][1]]))])
     ob = {o["oid"]: o for o in obls}
     for oid, clause in bad.items():
         ln = by[oid]
